@@ -157,8 +157,10 @@ def rule_r2(ctx) -> List[R.Inst]:
                     call_name(n.func.value) == "groupby" and any(x is sv_concat for x in ast.walk(n)):
                 red = n
         gkey = unparse(red.func.value.args[0]).strip("'\"") if red is not None and red.func.value.args else ""
-        if i_bpm and i_sv and reset_one and red is not None and gkey == "offset" and (
-                (call_name(red) == "last" and max(i_bpm) < min(i_sv)) or (call_name(red) == "first" and max(i_sv) < min(i_bpm))):
+        n_parts = len(parts)
+        sv_wins = (call_name(red) == "last" and i_sv and min(i_sv) == n_parts - 1 and len(i_sv) == 1) or \
+                  (call_name(red) == "first" and i_sv == [0]) if red is not None else False
+        if i_bpm and i_sv and reset_one and red is not None and gkey == "offset" and sv_wins:
             insts.append(R.ok(rid, "sv-precedence", file, sv_concat.lineno,
                               idiom="tempo points reset the multiplier to 1; a coincident SV wins (listed later, last() per offset)"))
         else:
@@ -167,9 +169,9 @@ def rule_r2(ctx) -> List[R.Inst]:
                 why.append("tempo points do not reset the multiplier to 1 (an SV lasts only until the next SV or tempo point)")
             if red is None or gkey != "offset":
                 why.append("coincident rows are not reduced per offset")
-            elif not ((call_name(red) == "last" and i_bpm and i_sv and max(i_bpm) < min(i_sv)) or
-                      (call_name(red) == "first" and i_bpm and i_sv and max(i_sv) < min(i_bpm))):
-                why.append(f"with '{call_name(red)}()' and this concat order a tempo reset overrides an SV placed at the same time")
+            elif not sv_wins:
+                why.append(f"with '{call_name(red)}()' and the concat order {['svs' if '.svs' in p_ else ('tempo resets' if '.bpms' in p_ else 'sentinels') for p_ in parts]} "
+                           f"a synthetic multiplier (tempo reset or head/tail sentinel) overrides a real SV placed at the same time")
             insts.append(R.viol(rid, "sv-precedence", file, sv_concat.lineno, "; ".join(why) or "SV precedence not as defined",
                                 construct="; ".join(why)))
     # both frames are sorted by offset before the fills, and merged on offset
